@@ -268,7 +268,11 @@ func TestVerifC11Cluster(t *testing.T) {
 			// ---- every node runs one anti-entropy pass, in a drawn order
 			cs.Order = rng.Perm(cfg.n)
 			for _, k := range cs.Order {
-				if err := c[k].Server.SyncData(); err != nil {
+				stale, err := vrcSyncData(c, k, index)
+				if stale {
+					r.Cover("cluster:observed:stale-index-resurrected-by-gossip")
+				}
+				if err != nil {
 					r.FailOrUndecided("cluster:pass-error:divergent="+strings.Join(divs, "+"), id, fmt.Sprintf("SyncData on node %d: %v", k, err), cs)
 					return
 				}
